@@ -249,6 +249,10 @@ pub fn record(seed: u64, n: usize, bin: &str, scratch: &str, out: &str, rep: &mu
                     l.push_str(["  ", " ", "\t", "   "][rng.gen_range(0..4)]);
                 }
             }
+            if rng.gen_bool(0.15) {
+                // a line longer than 255 bytes
+                ls.push(format!("9990 PRINT \"{}\";{}", "long".repeat(70), "1;".repeat(20)));
+            }
             if rng.gen_bool(0.3) {
                 ls.insert(0, "1 DATA \"Q   ".to_string());
                 ls.insert(1, "2 READ Z9$:PRINT Z9$;\"|\"".to_string());
